@@ -1,4 +1,340 @@
 /-
-C07 — placeholder (theorems follow)
+C07 — Patterned einsum equals the semiring einsum of the dense operands.
+Theorems about the specification `Sem.einsumSpec` (sum over all values of the non-output indices of the
+product of the operand entries) that the library's shortcuts rely on.
 -/
 import FggsModel.Einsum
+import FggsProofs.Props.C01
+import FggsProofs.Props.C12
+import Mathlib.Tactic.Linarith
+import Mathlib.Data.List.Basic
+import Mathlib.Data.List.Forall2
+import Mathlib.Data.List.Nodup
+import Mathlib.Data.List.Perm.Basic
+
+set_option linter.unusedSimpArgs false
+set_option linter.unusedVariables false
+
+namespace C07
+open Fggs Fggs.Sem
+
+variable {K : Type}
+
+/-! ### algebra toolkit (the helpers of C01/C12 are private there) -/
+
+private theorem foldl_add (S : SR K) (hS : C01.SRLaws S) (l : List K) (a : K) :
+    l.foldl S.add a = S.add a (S.sum l) := by
+  induction l generalizing a with
+  | nil => simp [SR.sum]; rw [hS.add_comm, hS.zero_add]
+  | cons b l ih =>
+    simp only [SR.sum, List.foldl_cons]
+    rw [ih, ih (S.add S.zero b), hS.zero_add, hS.add_assoc]
+
+private theorem sum_cons (S : SR K) (hS : C01.SRLaws S) (a : K) (l : List K) :
+    S.sum (a :: l) = S.add a (S.sum l) := by
+  show (a :: l).foldl S.add S.zero = _
+  rw [List.foldl_cons, foldl_add S hS, hS.zero_add]
+
+private theorem sum_singleton (S : SR K) (hS : C01.SRLaws S) (a : K) : S.sum [a] = a := by
+  show S.add S.zero a = a
+  exact hS.zero_add a
+
+private theorem foldl_mul (S : SR K) (hS : C01.SRLaws S) (l : List K) (c : K) :
+    l.foldl S.mul c = S.mul c (S.prod l) := by
+  induction l generalizing c with
+  | nil => simp [SR.prod]; rw [hS.mul_comm, hS.one_mul]
+  | cons b l ih =>
+    simp only [SR.prod, List.foldl_cons]
+    rw [ih, ih (S.mul S.one b), hS.one_mul, hS.mul_assoc]
+
+private theorem prod_cons (S : SR K) (hS : C01.SRLaws S) (a : K) (l : List K) :
+    S.prod (a :: l) = S.mul a (S.prod l) := by
+  show (a :: l).foldl S.mul S.one = _
+  rw [List.foldl_cons, foldl_mul S hS, hS.one_mul]
+
+private theorem sum_all_zero (S : SR K) (hS : C01.SRLaws S) (l : List K) (h : ∀ x ∈ l, x = S.zero) :
+    S.sum l = S.zero := by
+  induction l with
+  | nil => rfl
+  | cons a l ih =>
+    rw [sum_cons S hS, h a (List.mem_cons_self ..), hS.zero_add]
+    exact ih (fun x hx => h x (List.mem_cons_of_mem _ hx))
+
+private theorem prod_zero_of_mem (S : SR K) (hS : C01.SRLaws S) (l : List K) (h : S.zero ∈ l) :
+    S.prod l = S.zero := by
+  induction l with
+  | nil => simp at h
+  | cons a l ih =>
+    rw [prod_cons S hS]
+    rcases List.mem_cons.1 h with h | h
+    · rw [← h, hS.zero_mul]
+    · rw [ih h, hS.mul_comm, hS.zero_mul]
+
+/-! ### index tuples -/
+
+private theorem mem_assigns {shape a : List Nat} :
+    a ∈ assigns shape ↔ List.Forall₂ (· < ·) a shape := by
+  induction shape generalizing a with
+  | nil => simp [assigns]
+  | cons n rest ih =>
+    simp only [assigns, List.mem_flatMap, List.mem_range, List.mem_map]
+    constructor
+    · rintro ⟨i, hi, is, his, rfl⟩
+      exact List.Forall₂.cons hi (ih.1 his)
+    · intro h
+      cases h with
+      | cons hi his => exact ⟨_, hi, _, ih.2 his, rfl⟩
+
+private theorem nodup_assigns (shape : List Nat) : (assigns shape).Nodup := by
+  induction shape with
+  | nil => simp [assigns]
+  | cons n rest ih =>
+    rw [assigns, List.nodup_flatMap]
+    refine ⟨fun i _ => ih.map (fun _ _ h => (List.cons.inj h).2), ?_⟩
+    refine (List.nodup_range (n := n)).imp ?_
+    intro i j hij
+    show List.Disjoint _ _
+    intro x hx hy
+    simp only [List.mem_map] at hx hy
+    obtain ⟨_, _, rfl⟩ := hx
+    obtain ⟨_, _, h⟩ := hy
+    exact hij (List.cons.inj h).1.symm
+
+/-- index-wise reading of membership in `assigns` -/
+private theorem mem_assigns_get {shape a : List Nat} :
+    a ∈ assigns shape ↔ a.length = shape.length ∧
+      ∀ i (h₁ : i < a.length) (h₂ : i < shape.length), a[i] < shape[i] := by
+  rw [mem_assigns, List.forall₂_iff_get]; simp
+
+private theorem singleton_of_nodup {α : Type} (l : List α) (x : α) (hnd : l.Nodup) (hx : x ∈ l)
+    (hall : ∀ y ∈ l, y = x) : l = [x] := by
+  cases l with
+  | nil => simp at hx
+  | cons y ys =>
+    have hy := hall y (List.mem_cons_self ..)
+    subst hy
+    cases ys with
+    | nil => rfl
+    | cons z zs =>
+      exfalso
+      have hz := hall z (List.mem_cons_of_mem _ (List.mem_cons_self ..))
+      subst hz
+      simp at hnd
+
+/-! ### the restricted sizes -/
+
+/-- the sizes seen by the einsum: unused variables have size 1 -/
+private def sizesOf (sizes used : List Nat) : List Nat :=
+  sizes.zipIdx.map (fun (n, v) => if used.contains v then n else 1)
+
+private theorem length_sizesOf (sizes used : List Nat) : (sizesOf sizes used).length = sizes.length := by
+  simp [sizesOf]
+
+private theorem getElem_sizesOf (sizes used : List Nat) (v : Nat) (h : v < (sizesOf sizes used).length)
+    (h' : v < sizes.length) :
+    (sizesOf sizes used)[v] = if v ∈ used then sizes[v] else 1 := by
+  simp [sizesOf, List.getElem_zipIdx]
+
+private theorem sizesOf_congr (sizes used used' : List Nat) (h : ∀ v, v ∈ used ↔ v ∈ used') :
+    sizesOf sizes used = sizesOf sizes used' := by
+  unfold sizesOf
+  apply List.map_congr_left
+  rintro ⟨n, v⟩ _
+  have : used.contains v = used'.contains v := by
+    rw [Bool.eq_iff_iff, List.contains_iff_mem, List.contains_iff_mem]; exact h v
+  simp only [this]
+
+private theorem assigns_agree (sizes used out : List Nat) (hused : ∀ v ∈ used, v ∈ out)
+    (ρ ρ' : List Nat) (hρ : ρ ∈ assigns (sizesOf sizes used)) (hρ' : ρ' ∈ assigns (sizesOf sizes used))
+    (heq : out.map (fun v => ρ[v]?.getD 0) = out.map (fun v => ρ'[v]?.getD 0)) : ρ = ρ' := by
+  rw [mem_assigns_get] at hρ hρ'
+  rw [List.map_inj_left] at heq
+  apply List.ext_getElem (by rw [hρ.1, hρ'.1])
+  intro i h₁ h₂
+  have hi : i < (sizesOf sizes used).length := by rw [← hρ.1]; exact h₁
+  have hi' : i < sizes.length := by simpa [length_sizesOf] using hi
+  by_cases hu : i ∈ used
+  · have := heq i (hused i hu)
+    simpa [h₁, h₂] using this
+  · have e1 := hρ.2 i h₁ hi
+    have e2 := hρ'.2 i h₂ hi
+    rw [getElem_sizesOf _ _ _ hi hi', if_neg hu] at e1 e2
+    omega
+
+private theorem einsumSpec_eq (S : SR K) (sizes : List Nat) (ops : List ((List Nat → K) × List Nat))
+    (out : List Nat) :
+    einsumSpec S sizes ops out =
+      (assigns (out.map (fun v => sizes[v]?.getD 0))).map (fun a =>
+        S.sum (((assigns (sizesOf sizes (ops.flatMap (·.2) ++ out))).filter
+          (fun ρ => out.map (fun v => ρ[v]?.getD 0) == a)).map (fun ρ =>
+            S.prod (ops.map (fun op => op.1 (op.2.map (fun v => ρ[v]?.getD 0))))))) := rfl
+
+/-- the empty operand list with no output: the scalar `one` -/
+theorem einsumSpec_nil (S : SR K) (hS : C01.SRLaws S) (sizes : List Nat) :
+    einsumSpec S sizes [] [] = [S.one] := by
+  rw [einsumSpec_eq]
+  simp only [List.flatMap_nil, List.append_nil]
+  have hρ₀ : List.replicate sizes.length 0 ∈ assigns (sizesOf sizes []) := by
+    rw [mem_assigns_get]
+    refine ⟨by simp [length_sizesOf], ?_⟩
+    intro i h₁ h₂
+    rw [getElem_sizesOf _ _ _ h₂ (by simpa [length_sizesOf] using h₂)]
+    simp
+  have huniq : ∀ ρ ∈ assigns (sizesOf sizes []), ρ = List.replicate sizes.length 0 := by
+    intro ρ hρ
+    exact assigns_agree sizes [] [] (fun v hv => hv) ρ _ hρ hρ₀ rfl
+  have hsing := singleton_of_nodup _ _ (nodup_assigns _) hρ₀ huniq
+  rw [hsing]
+  simp [assigns, sum_singleton S hS, SR.prod]
+
+/-- the order of the operands does not matter -/
+theorem einsumSpec_perm_ops (S : SR K) (hS : C01.SRLaws S) (sizes : List Nat)
+    (ops ops' : List ((List Nat → K) × List Nat)) (h : ops'.Perm ops) (out : List Nat) :
+    einsumSpec S sizes ops' out = einsumSpec S sizes ops out := by
+  rw [einsumSpec_eq, einsumSpec_eq]
+  have hs : sizesOf sizes (ops'.flatMap (·.2) ++ out) = sizesOf sizes (ops.flatMap (·.2) ++ out) := by
+    apply sizesOf_congr
+    intro v
+    simp only [List.mem_append, List.mem_flatMap]
+    constructor
+    · rintro (⟨op, hop, hv⟩ | hv)
+      · exact Or.inl ⟨op, h.mem_iff.1 hop, hv⟩
+      · exact Or.inr hv
+    · rintro (⟨op, hop, hv⟩ | hv)
+      · exact Or.inl ⟨op, h.mem_iff.2 hop, hv⟩
+      · exact Or.inr hv
+  rw [hs]
+  apply List.map_congr_left
+  intro a _
+  congr 1
+  apply List.map_congr_left
+  intro ρ _
+  exact C12.prod_perm S hS _ _ (h.map _)
+
+/-- **a zero operand makes the result zero** (this is why the library may return the zero tensor when two
+patterns fail to unify: their supports are disjoint, so the product of the operands is zero everywhere) -/
+theorem einsumSpec_zero_of_pointwise_zero (S : SR K) (hS : C01.SRLaws S) (sizes : List Nat)
+    (ops : List ((List Nat → K) × List Nat)) (out : List Nat)
+    (h : ∀ ρ ∈ assigns (sizes.zipIdx.map (fun (n, v) => if (ops.flatMap (·.2) ++ out).contains v then n else 1)),
+        ∃ op ∈ ops, op.1 (op.2.map (fun v => ρ[v]?.getD 0)) = S.zero) :
+    ∀ c ∈ einsumSpec S sizes ops out, c = S.zero := by
+  intro c hc
+  rw [einsumSpec_eq, List.mem_map] at hc
+  obtain ⟨a, _, rfl⟩ := hc
+  apply sum_all_zero S hS
+  intro x hx
+  rw [List.mem_map] at hx
+  obtain ⟨ρ, hρ, rfl⟩ := hx
+  obtain ⟨op, hop, hz⟩ := h ρ (List.mem_filter.1 hρ).1
+  apply prod_zero_of_mem S hS
+  rw [List.mem_map]
+  exact ⟨op, hop, hz⟩
+
+/-! ### sum-free equations -/
+
+/-- the only assignment compatible with the output cell `a`: output variables read from `a`, all others 0 -/
+def cellAssign (n : Nat) (out a : List Nat) : List Nat :=
+  (List.range n).map (fun v => if v ∈ out then a[out.idxOf v]?.getD 0 else 0)
+
+private theorem getD_cellAssign (n : Nat) (out a : List Nat) (v : Nat) (hv : v < n) :
+    (cellAssign n out a)[v]?.getD 0 = if v ∈ out then a[out.idxOf v]?.getD 0 else 0 := by
+  simp [cellAssign, hv]
+
+private theorem cellAssign_out (n : Nat) (out a : List Nat) (hnd : out.Nodup) (hlt : ∀ v ∈ out, v < n)
+    (hlen : a.length = out.length) :
+    out.map (fun v => (cellAssign n out a)[v]?.getD 0) = a := by
+  apply List.ext_getElem (by simp [hlen])
+  intro i h₁ h₂
+  have hi : i < out.length := by simpa using h₁
+  rw [List.getElem_map, getD_cellAssign _ _ _ _ (hlt _ (List.getElem_mem hi)),
+    if_pos (List.getElem_mem hi), hnd.idxOf_getElem i hi]
+  simp [h₂]
+
+private theorem cellAssign_mem (sizes used out a : List Nat) (hnd : out.Nodup)
+    (hused : ∀ v, v ∈ used ↔ v ∈ out) (hlt : ∀ v ∈ out, v < sizes.length)
+    (ha : a ∈ assigns (out.map (fun v => sizes[v]?.getD 0))) :
+    cellAssign sizes.length out a ∈ assigns (sizesOf sizes used) := by
+  rw [mem_assigns_get] at ha ⊢
+  refine ⟨by simp [cellAssign, length_sizesOf], ?_⟩
+  intro v h₁ h₂
+  have hv : v < sizes.length := by simpa [length_sizesOf] using h₂
+  rw [getElem_sizesOf _ _ _ h₂ hv]
+  have hg := getD_cellAssign sizes.length out a v hv
+  rw [List.getElem?_eq_getElem h₁, Option.getD_some] at hg
+  rw [hg]
+  by_cases ho : v ∈ out
+  · rw [if_pos ho, if_pos ((hused v).2 ho)]
+    have hi : out.idxOf v < out.length := List.idxOf_lt_length_iff.2 ho
+    have hia : out.idxOf v < a.length := by rw [ha.1]; simpa using hi
+    have := ha.2 (out.idxOf v) hia (by simpa using hi)
+    simp only [List.getElem_map, List.getElem_idxOf, hv, List.getElem?_eq_getElem,
+      Option.getD_some] at this
+    simpa [hia] using this
+  · rw [if_neg ho, if_neg (fun h => ho ((hused v).1 h))]
+    exact Nat.zero_lt_one
+
+/-- **a sum-free equation is a pointwise product** (explicit form): when every used variable is an output
+variable (and the output lists each once), the result cell at `a` is the product of the operand entries at
+the assignment `cellAssign … a` (output variables read from `a`, unused variables 0). -/
+theorem einsumSpec_sumfree_cell_explicit (S : SR K) (hS : C01.SRLaws S) (sizes : List Nat)
+    (ops : List ((List Nat → K) × List Nat)) (out : List Nat) (hnd : out.Nodup)
+    (hall : ∀ v ∈ ops.flatMap (·.2), v ∈ out) (hlt : ∀ v ∈ out, v < sizes.length)
+    (a : List Nat) (ha : a ∈ assigns (out.map (fun v => sizes[v]?.getD 0))) :
+    out.map (fun v => (cellAssign sizes.length out a)[v]?.getD 0) = a ∧
+    getT S (einsumSpec S sizes ops out) (out.map (fun v => sizes[v]?.getD 0)) a
+      = S.prod (ops.map (fun op => op.1 (op.2.map (fun v => (cellAssign sizes.length out a)[v]?.getD 0)))) := by
+  have hlen : a.length = out.length := by
+    have := (mem_assigns_get.1 ha).1
+    simpa using this
+  have hout := cellAssign_out sizes.length out a hnd hlt hlen
+  refine ⟨hout, ?_⟩
+  rw [einsumSpec_eq, C01.getT_assigns_map S _ _ a ha]
+  have hused : ∀ v, v ∈ ops.flatMap (·.2) ++ out ↔ v ∈ out := by
+    intro v
+    rw [List.mem_append]
+    exact ⟨fun h => h.elim (hall v) id, Or.inr⟩
+  have hmem := cellAssign_mem sizes _ out a hnd hused hlt ha
+  have hsing : (assigns (sizesOf sizes (ops.flatMap (·.2) ++ out))).filter
+      (fun ρ => out.map (fun v => ρ[v]?.getD 0) == a) = [cellAssign sizes.length out a] := by
+    apply singleton_of_nodup _ _ ((nodup_assigns _).filter _)
+    · rw [List.mem_filter]
+      exact ⟨hmem, by simp [hout]⟩
+    · intro ρ hρ
+      rw [List.mem_filter] at hρ
+      have h2 : out.map (fun v => ρ[v]?.getD 0) = a := by simpa using hρ.2
+      exact assigns_agree sizes _ out (fun v hv => (hused v).1 hv) ρ _ hρ.1 hmem (h2.trans hout.symm)
+  rw [hsing, List.map_singleton, sum_singleton S hS]
+
+/-- **a sum-free equation is a pointwise product** (strong form): the cell at `a` is the product of the
+operand entries at *any* assignment `ρ` that restricts to `a` on the output variables. -/
+theorem einsumSpec_sumfree_cell_forall (S : SR K) (hS : C01.SRLaws S) (sizes : List Nat)
+    (ops : List ((List Nat → K) × List Nat)) (out : List Nat) (hnd : out.Nodup)
+    (hall : ∀ v ∈ ops.flatMap (·.2), v ∈ out) (hlt : ∀ v ∈ out, v < sizes.length)
+    (a : List Nat) (ha : a ∈ assigns (out.map (fun v => sizes[v]?.getD 0)))
+    (ρ : List Nat) (hρ : out.map (fun v => ρ[v]?.getD 0) = a) :
+    getT S (einsumSpec S sizes ops out) (out.map (fun v => sizes[v]?.getD 0)) a
+      = S.prod (ops.map (fun op => op.1 (op.2.map (fun v => ρ[v]?.getD 0)))) := by
+  obtain ⟨h1, h2⟩ := einsumSpec_sumfree_cell_explicit S hS sizes ops out hnd hall hlt a ha
+  rw [h2]
+  congr 1
+  apply List.map_congr_left
+  intro op hop
+  apply congrArg
+  have hag := List.map_inj_left.1 (h1.trans hρ.symm)
+  apply List.map_congr_left
+  intro v hv
+  exact hag v (hall v (List.mem_flatMap.2 ⟨op, hop, hv⟩))
+
+/-- **a sum-free equation is a pointwise product**: when every used variable is an output variable (and the
+output lists each once), each result cell is just the product of the operand entries at that cell — this is
+the case in which `reduce_equation` drops broadcast (stride-0 / size-1) dimensions and re-expands afterwards -/
+theorem einsumSpec_sumfree_cell (S : SR K) (hS : C01.SRLaws S) (sizes : List Nat)
+    (ops : List ((List Nat → K) × List Nat)) (out : List Nat) (hnd : out.Nodup)
+    (hall : ∀ v ∈ ops.flatMap (·.2), v ∈ out) (hlt : ∀ v ∈ out, v < sizes.length)
+    (a : List Nat) (ha : a ∈ assigns (out.map (fun v => sizes[v]?.getD 0))) :
+    ∃ ρ : List Nat, out.map (fun v => ρ[v]?.getD 0) = a ∧
+      getT S (einsumSpec S sizes ops out) (out.map (fun v => sizes[v]?.getD 0)) a
+        = S.prod (ops.map (fun op => op.1 (op.2.map (fun v => ρ[v]?.getD 0)))) :=
+  ⟨cellAssign sizes.length out a, einsumSpec_sumfree_cell_explicit S hS sizes ops out hnd hall hlt a ha⟩
+
+end C07
